@@ -7,6 +7,9 @@
 // Line protocol (one result line per op):
 //   file <i> <hex>                      raw file i                              -> ok
 //   recfile <i> <hexrec>*               file i := RecordIOWriter image          -> file <hex>
+//   put <hexname> <hex> / putrec <hexname> <hexrec>*   named file (any '/'-separated name) in the file system -> ok / file <hex>
+//   newuri <text|recordio> <hexuri> <recurse> <k> <n> <w> <st> <kBufferSize>   construct from a URI string (';'-list, directories)
+//                                         -> ok files <hexname>:<size>* offs <file_offset_>* | <state>  / err:check
 //   new <text|recordio> <k> <n> <w> <st> <kBufferSize>  construct over files 0..; buffer_size_ := w words; st=1 wraps the
 //                                         base in SingleThreadedInputSplit      -> ok | <state>  / err:check
 //   rec / chunk                         NextRecord / NextChunk                  -> rec|chunk <hex> | <state>  / false | <state>
@@ -101,6 +104,7 @@ struct SplitHarness : vh::Harness {
   std::vector<std::string> files;                    // file table
   std::vector<std::vector<std::string>> file_recs;   // records per file (recordio)
   std::vector<bool> is_recfile;
+  std::map<std::string, std::vector<std::string>> named_recs;   // records of files made by putrec
   InputSplitBase *base = nullptr;
   std::unique_ptr<InputSplit> owner;                 // the object ops go to (base itself or the wrapper)
   dmlc::io::SingleThreadedInputSplit *wrap = nullptr;
@@ -120,6 +124,7 @@ struct SplitHarness : vh::Harness {
     files.clear();
     file_recs.clear();
     is_recfile.clear();
+    named_recs.clear();
     fs.Clear();
   }
 
@@ -215,6 +220,56 @@ struct SplitHarness : vh::Harness {
       is_recfile[i] = true;
       fs.Put("/m/f" + std::to_string(i), img);
       return "file " + vh::hex(img);
+    }
+    if (op == "put" && w.size() == 3) {
+      std::string nm = vh::unhex(w[1]);
+      fs.Put(nm, vh::unhex(w[2]));
+      named_recs.erase(nm);
+      return "ok";
+    }
+    if (op == "putrec" && w.size() >= 2) {
+      std::string nm = vh::unhex(w[1]), img;
+      std::vector<std::string> recs;
+      {
+        dmlc::MemoryStringStream ms(&img);
+        dmlc::RecordIOWriter wr(&ms);
+        for (size_t j = 2; j < w.size(); ++j) {
+          recs.push_back(vh::unhex(w[j]));
+          wr.WriteRecord(recs.back());
+        }
+      }
+      fs.Put(nm, img);
+      named_recs[nm] = recs;
+      return "file " + vh::hex(img);
+    }
+    if (op == "newuri" && w.size() == 9) {
+      drop();
+      text = w[1] == "text";
+      std::string u = vh::unhex(w[2]);
+      bool rc = w[3] == "1";
+      unsigned k = strtoul(w[4].c_str(), nullptr, 10), n = strtoul(w[5].c_str(), nullptr, 10);
+      size_t bw = strtoull(w[6].c_str(), nullptr, 10);
+      bool st = w[7] == "1";
+      if (n == 0 || bw == 0 || strtoull(w[8].c_str(), nullptr, 10) != InputSplitBase::kBufferSize) return "bad-op";
+      try {
+        if (text) base = new dmlc::io::LineSplitter(&fs, u.c_str(), k, n);
+        else base = new dmlc::io::RecordIOSplitter(&fs, u.c_str(), k, n, rc);
+      } catch (const dmlc::Error &) {
+        base = nullptr;
+        return "err:check";
+      }
+      base->buffer_size_ = bw;
+      if (st) {
+        wrap = new dmlc::io::SingleThreadedInputSplit(base, 1);
+        owner.reset(wrap);
+      } else {
+        owner.reset(base);
+      }
+      std::string res = "ok files";
+      for (auto &f : base->files_) res += " " + vh::hex(f.path.name) + ":" + num(f.size);
+      res += " offs";
+      for (size_t o : base->file_offset_) res += " " + num(o);
+      return res + " | " + state();
     }
     if (op == "new" && w.size() == 7) {
       drop();
@@ -396,6 +451,123 @@ struct SplitHarness : vh::Harness {
     return s + "]";
   }
 
+  // independent expansion of a URI list over the current file system, for canonical pieces only
+  // ("/a/b" style: absolute, no "://", no "//", no trailing '/', no NUL); false = not canonical, no verdict
+  bool ref_expand(const std::string &uri, bool recurse, std::vector<std::string> *names) {
+    std::vector<std::string> keys = fs.Names();   // sorted
+    std::vector<std::string> pieces;
+    {
+      std::string cur;
+      for (char ch : uri) {
+        if (ch == ';') { pieces.push_back(cur); cur.clear(); }
+        else cur.push_back(ch);
+      }
+      if (!cur.empty()) pieces.push_back(cur);
+    }
+    for (auto &p : pieces) {
+      if (p.size() < 2 || p[0] != '/' || p[p.size() - 1] == '/' || p.find("//") != std::string::npos ||
+          p.find('\0') != std::string::npos) return false;
+      const std::string *content = fs.Get(p);
+      if (content != nullptr) {
+        if (!content->empty()) names->push_back(p);
+        continue;
+      }
+      // a directory: breadth first, each directory's own files in name order
+      std::vector<std::string> queue{p};
+      for (size_t qi = 0; qi < queue.size(); ++qi) {
+        std::string pre = queue[qi] + "/";
+        std::set<std::string> subs;
+        for (auto &k : keys) {
+          if (k.size() <= pre.size() || k.compare(0, pre.size(), pre) != 0) continue;
+          size_t slash = k.find('/', pre.size());
+          if (slash == std::string::npos) {
+            if (!fs.Get(k)->empty()) names->push_back(k);
+          } else if (recurse) {
+            subs.insert(k.substr(0, slash));
+          }
+        }
+        for (auto &sd : subs) queue.push_back(sd);
+      }
+      // a name that is neither a file nor a directory contributes nothing (the code drops it silently)
+    }
+    return true;
+  }
+
+  void uri_oracle(const Case &c, const std::vector<std::string> &res, std::vector<std::string> *fail) {
+    size_t i = 0;
+    while (i < c.ops.size()) {
+      auto w = vh::split_ws(c.ops[i]);
+      if (w[0] != "newuri" || w.size() != 9) { ++i; continue; }
+      bool is_text = w[1] == "text";
+      std::string pr = is_text ? "C03" : "C04";
+      std::string uri = vh::unhex(w[2]);
+      bool rc = !is_text && w[3] == "1";
+      std::vector<std::string> names;
+      bool canonical = ref_expand(uri, rc, &names);
+      // recordio needs files written by the writer
+      if (!is_text)
+        for (auto &nm : names)
+          if (!named_recs.count(nm)) canonical = false;
+      if (is_text)
+        for (auto &nm : names)
+          if (fs.Get(nm)->find('\0') != std::string::npos) canonical = false;
+      std::string tag = "class=none prop=" + pr + " uri=" + w[2] + " ";
+      if (canonical) {
+        // 1. the file list
+        std::string want = "files";
+        size_t off = 0;
+        std::string offs = " offs 0";
+        for (auto &nm : names) {
+          want += " " + vh::hex(nm) + ":" + num(fs.Get(nm)->size());
+          off += fs.Get(nm)->size();
+          offs += " " + num(off);
+        }
+        want += offs;
+        if (names.empty()) {
+          if (res[i] != "err:check") fail->push_back(tag + "no non-empty file is named but construction gives " + res[i].substr(0, 120));
+        } else if (res[i].compare(0, 3, "ok ") != 0 || res[i].compare(3, want.size(), want) != 0 ||
+                   res[i].compare(3 + want.size(), 3, " | ") != 0) {
+          fail->push_back(tag + "file list differs: got " + res[i].substr(0, 160) + " expected " + want.substr(0, 160));
+        }
+      }
+      // 2. cover group k = 0..n-1 over the same URI
+      unsigned n = strtoul(w[5].c_str(), nullptr, 10);
+      if (w[4] != "0" || !canonical || names.empty()) { ++i; continue; }
+      std::vector<std::pair<std::string, bool>> blobs;
+      bool complete = true, errored = false;
+      size_t j = i;
+      for (unsigned k = 0; k < n; ++k) {
+        if (j >= c.ops.size()) { complete = false; break; }
+        auto wk = vh::split_ws(c.ops[j]);
+        if (wk[0] != "newuri" || wk.size() != 9 || wk[1] != w[1] || wk[2] != w[2] || wk[3] != w[3] || wk[5] != w[5] ||
+            wk[6] != w[6] || strtoul(wk[4].c_str(), nullptr, 10) != k) { complete = false; break; }
+        if (res[j].compare(0, 2, "ok") != 0) errored = true;
+        ++j;
+        while (j < c.ops.size()) {
+          auto wo = vh::split_ws(c.ops[j]);
+          if (wo[0] == "newuri" || wo[0] == "new") break;
+          if (res[j].compare(0, 4, "err:") == 0 || res[j].compare(0, 3, "ub:") == 0 || res[j] == "poisoned" || res[j] == "runaway") errored = true;
+          delivered(wo, res[j], &blobs);
+          ++j;
+        }
+      }
+      if (!complete) { ++i; continue; }
+      bool legal = is_text || strtoull(w[6].c_str(), nullptr, 10) >= 2;
+      if (legal) {
+        std::vector<std::string> want, got;
+        for (auto &nm : names) {
+          if (is_text) ref_lines(*fs.Get(nm), &want);
+          else for (auto &r : named_recs[nm]) want.push_back(r);
+        }
+        std::string why;
+        if (errored) fail->push_back(tag + "an operation failed on a well-formed input");
+        else if (!canon(is_text, blobs, &got, &why)) fail->push_back(tag + why);
+        else if (got != want) fail->push_back(tag + "parts deliver " + show(got) + " expected " + show(want));
+      }
+      i = j;
+    }
+  }
+
   void end_case(const Case &c, const std::vector<std::string> &res, std::vector<std::string> *fail) override {
     bool cover = c.kind.compare(0, 5, "cover") == 0;
     bool hist = c.kind.compare(0, 4, "hist") == 0;
@@ -476,6 +648,8 @@ struct SplitHarness : vh::Harness {
         i = j;
       }
     }
+    // ---- URI cases: file list (names, sizes, offsets) against an independent expansion of the URI, then cover
+    if (c.kind.compare(0, 3, "uri") == 0) uri_oracle(c, res, fail);
     // ---- histories: after every bf / reset the delivered stream is (a prefix of) the fresh stream
     if (hist) {
       bool is_text = true, have = false, seg_open = false, full = false, dead = false;
@@ -755,6 +929,75 @@ struct Gen {
         c.ops.push_back("create text " + std::to_string(k) + " " + std::to_string(n) + " " + std::to_string(InputSplitBase::kBufferSize));
       R.run_case(c);
     }
+    // (4) splits constructed from URI strings over directory trees
+    uri_cases(true, thorough() ? 8000 : 1200);
+  }
+
+  // ---------------- URI expansion (both formats) ----------------
+  // random small directory trees under /r (depth <= 3), URI lists mixing files, directories (with and without trailing '/'),
+  // nested directories, empty files, missing names, duplicates, empty pieces, a scheme prefix
+  void uri_cases(bool is_text, size_t count) {
+    auto alpha = rec_alphabet();
+    const char *comps[] = {"a", "b", "c", "d1", "d2", "e_f", "x-1"};
+    for (size_t it = 0; it < count; ++it) {
+      Case c;
+      c.kind = "uri random";
+      std::vector<std::string> fnames, dnames{"/r"};
+      size_t nfiles = 1 + rng.below(6);
+      for (size_t f = 0; f < nfiles; ++f) {
+        std::string nm = "/r";
+        size_t depth = 1 + rng.below(3);
+        for (size_t d = 0; d < depth; ++d) {
+          nm += std::string("/") + comps[rng.below(7)];
+          if (d + 1 < depth) dnames.push_back(nm);
+        }
+        bool clash = false;   // a name may not be both a file and a directory prefix of another file
+        for (auto &o : fnames)
+          if (o == nm || o.compare(0, nm.size() + 1, nm + "/") == 0 || nm.compare(0, o.size() + 1, o + "/") == 0) clash = true;
+        if (clash) continue;
+        fnames.push_back(nm);
+        bool empty = rng.chance(1, 6);
+        if (is_text) {
+          c.ops.push_back("put " + vh::hex(nm) + " " + vh::hex(empty ? std::string() : random_text(rng, 12)));
+        } else {
+          std::string op = "putrec " + vh::hex(nm);
+          size_t nr = empty ? 0 : 1 + rng.below(3);
+          for (size_t j = 0; j < nr; ++j) op += " " + vh::hex(random_record(rng, alpha));
+          c.ops.push_back(op);
+        }
+      }
+      if (fnames.empty()) continue;
+      for (int g = 0; g < 3; ++g) {
+        std::string uri;
+        size_t np = 1 + rng.below(4);
+        for (size_t p = 0; p < np; ++p) {
+          std::string piece;
+          switch (rng.below(18)) {
+            case 0: case 1: case 2: case 3: case 4: case 5: case 6: piece = fnames[rng.below(fnames.size())]; break;
+            case 7: case 8: case 9: case 10: piece = dnames[rng.below(dnames.size())]; break;
+            case 11: piece = dnames[rng.below(dnames.size())] + "/"; break;
+            case 12: case 13: piece = dnames[rng.below(dnames.size())] + "/zz"; break;   // missing, in an existing directory
+            case 14: piece = rng.chance(1, 2) ? "nowhere" : "/q/none"; break;            // missing (no slash: fatal; unknown dir: dropped)
+            case 15: piece = rng.chance(1, 2) ? "" : "mem://h" + fnames[rng.below(fnames.size())]; break;
+            case 16: piece = "mem://h" + dnames[rng.below(dnames.size())]; break;
+            default: piece = fnames[rng.below(fnames.size())] + (rng.chance(1, 2) ? "/" : "//");
+          }
+          uri += (p ? ";" : "") + piece;
+        }
+        if (rng.chance(1, 8)) uri += ";";
+        unsigned n = 1 + static_cast<unsigned>(rng.below(3));
+        size_t w = (is_text ? 1 : 2) + rng.below(4);
+        int rc = (!is_text && rng.chance(1, 2)) ? 1 : 0;
+        std::string mode = rng.chance(1, 2) ? "rec" : "chunk";
+        for (unsigned k = 0; k < n; ++k) {
+          c.ops.push_back(std::string("newuri ") + (is_text ? "text " : "recordio ") + vh::hex(uri) + " " + std::to_string(rc) + " " +
+                          std::to_string(k) + " " + std::to_string(n) + " " + std::to_string(w) + " " + (rng.chance(1, 6) ? "1" : "0") + " " +
+                          std::to_string(InputSplitBase::kBufferSize));
+          c.ops.push_back("drain " + mode);
+        }
+      }
+      R.run_case(c);
+    }
   }
 
   // ---------------- C04 ----------------
@@ -856,6 +1099,8 @@ struct Gen {
       add_cover_group(&c, "recordio", n, w, 0, rng.chance(1, 2) ? "rec" : "chunk", nullptr, 0);
       R.run_case(c);
     }
+    // (5) splits constructed from URI strings over directory trees (recursive listing included)
+    uri_cases(false, thorough() ? 6000 : 1000);
   }
 
   // ---------------- C05 ----------------
